@@ -35,6 +35,8 @@ def run_one(d):
                             capture_output=True, text=True, env=env, timeout=3600, cwd=scratch)
         viol = any(l.startswith(f"VIOLATION property={prop} ") for l in cp.stdout.splitlines())
         clause = next((l.strip() for l in cp.stdout.splitlines() if l.startswith("violation in run")), "")
+        if meta.get("expected") == "unreplayable":     # violations are seen but depend on interpreter state: exit 2, never 0
+            return os.path.basename(d), prop, "caught" if cp.returncode == 2 else f"UNEXPECTED(exit {cp.returncode})", "expected HARNESS-ERROR (not replayable)"
         if meta.get("expected") == "missed":       # documented as outside the property's checked domain
             return os.path.basename(d), prop, "caught" if cp.returncode == 0 else f"UNEXPECTED(exit {cp.returncode})", "expected miss"
         return os.path.basename(d), prop, "caught" if (cp.returncode == 1 and viol) else f"MISSED(exit {cp.returncode})", clause[:90]
